@@ -1,5 +1,6 @@
 import GridVerif.Props.C18
 import GridVerif.Props.C18.Gen
+import GridVerif.Props.C18.CallTime
 
 #print axioms GridVerif.C18.mem_product
 #print axioms GridVerif.C18.product_order
@@ -32,3 +33,8 @@ import GridVerif.Props.C18.Gen
 #print axioms GridVerif.C18.gen_moments_not_implemented
 #print axioms GridVerif.C18.gen_moments_defaults
 #print axioms GridVerif.C18.gen_get_localgrid_not_implemented
+#print axioms GridVerif.C18.gen_init_fields
+#print axioms GridVerif.C18.gen_observations_of_current_components
+#print axioms GridVerif.C18.gen_update_component
+#print axioms GridVerif.C18.gen_integrate_pointwise_only
+#print axioms GridVerif.C18.gen_integrate_one_domain
